@@ -436,7 +436,7 @@ type c19Env struct {
 	lastCall           string
 	extraPass, extraMn []string
 	pendingIDs         []string // txids of unconfirmed transactions delivered to the wallet
-	abort              bool // a request hung: the rest of the session would only wait for its locks
+	abort              bool     // a request hung: the rest of the session would only wait for its locks
 }
 
 func (e *c19Env) pointFn(name string) {
